@@ -48,6 +48,14 @@ import BlocV.DrvC09
 import BlocV.DrvC11
 -- END C11
 
+-- BEGIN C02FE
+import BlocV.DrvFE
+-- END C02FE
+
+-- BEGIN C10
+import BlocV.DrvC10
+-- END C10
+
 open BlocV BlocV.Proto
 
 def specIRes : Spec.IRes → String
@@ -104,6 +112,12 @@ def handleTok (hex reader : String) : String :=
 -- END C13
 
 def handle (words : List String) : String :=
+  -- BEGIN C10
+  if let some r := DrvC10.handle words then r else
+  -- END C10
+  -- BEGIN C02FE
+  if let some r := DrvFE.handle words then r else
+  -- END C02FE
   -- BEGIN C18F
   if let some r := DrvC18F.handle words then r else
   -- END C18F
